@@ -47,7 +47,8 @@ type BuildOp struct {
 }
 
 type Op struct {
-	Kind       string // parse | model | help | iniparse | iniwrite | man | complete
+	Kind       string // parse | model | help | iniparse | iniwrite | man | complete | build (a declaration added between operations)
+	B          *BuildOp
 	Args       []string
 	Cols       int
 	Text       string
@@ -135,8 +136,7 @@ func (c *Case) Lines(cols int) []string {
 	}
 	out = append(out, fmt.Sprintf("parser %s %d %s %s %s %s %s", hx(c.Name), uint(c.Opts), hx(c.NsDelim), hx(c.EnvNsDelim), h, b01(c.CmdHandler), hx(c.Usage)))
 	next := 0
-	for i := range c.Build {
-		b := &c.Build[i]
+	buildLines := func(b *BuildOp) {
 		switch b.Kind {
 		case "addgroup":
 			c.structLines(b.Struct, &next, &out)
@@ -154,6 +154,9 @@ func (c *Case) Lines(cols int) []string {
 			out = append(out, fmt.Sprintf("setgrp %d %d %s %s", b.Target, b.Gi, b.Attr, strings.Join(b.Vals, " ")))
 		}
 	}
+	for i := range c.Build {
+		buildLines(&c.Build[i])
+	}
 	for _, op := range c.Ops {
 		switch op.Kind {
 		case "parse":
@@ -170,6 +173,8 @@ func (c *Case) Lines(cols int) []string {
 			out = append(out, "man "+hx(manDate))
 		case "complete":
 			out = append(out, "complete "+hxList(op.Args))
+		case "build":
+			buildLines(op.B)
 		}
 	}
 	for _, e := range c.Env {
@@ -365,6 +370,11 @@ func BuildReal(c *Case) (*Real, []string) {
 			r.indexCodes(c.Build[i].Struct)
 		}
 	}
+	for i := range c.Ops {
+		if c.Ops[i].B != nil && c.Ops[i].B.Struct != nil {
+			r.indexCodes(c.Ops[i].B.Struct)
+		}
+	}
 	p := flags.NewNamedParser(c.Name, c.Opts)
 	p.NamespaceDelimiter = c.NsDelim
 	p.EnvNamespaceDelimiter = c.EnvNsDelim
@@ -390,6 +400,9 @@ func BuildReal(c *Case) (*Real, []string) {
 				return append([]string{c.HandlerTok}, args...), nil
 			case "fail":
 				return nil, fmt.Errorf("handler refused: %s", option)
+			case "swallow":
+				// a literal nil slice: nothing is left to parse
+				return nil, nil
 			}
 			return args, nil
 		}
@@ -414,75 +427,81 @@ func BuildReal(c *Case) (*Real, []string) {
 		if r.dead {
 			break
 		}
-		b := &c.Build[i]
-		target := r.byUid[b.Target]
-		switch b.Kind {
-		case "addgroup":
-			data := r.makeStruct(b.Struct)
-			_, err := target.AddGroup(b.Short, b.Long, data.Interface())
-			outs = append(outs, "R "+errLine(err, false))
-			r.dead = err != nil
-			r.number()
-		case "addcommand":
-			var data interface{}
-			var ec *execCmd
-			if b.Commander != 0 {
-				ec = &execCmd{kind: b.Commander, name: b.Name, log: r.log}
-				if b.Usage != nil {
-					data = &execUsageCmd{execCmd: *ec, usage: *b.Usage}
-					ec = &data.(*execUsageCmd).execCmd
-				} else {
-					data = ec
-				}
-			} else {
-				data = r.makeStruct(b.Struct).Interface()
-			}
-			cmd, err := target.AddCommand(b.Name, b.Short, b.Long, data)
-			outs = append(outs, "R "+errLine(err, false))
-			r.dead = err != nil
-			r.number()
-			if err == nil && ec != nil {
-				ec.uid = r.uids[cmd]
-				r.execs = append(r.execs, ec)
-			}
-		case "setcmd":
-			switch b.Attr {
-			case "hidden":
-				target.Hidden = b.Vals[0] == "1"
-			case "subopt":
-				target.SubcommandsOptional = b.Vals[0] == "1"
-			case "aliases":
-				var as []string
-				for _, v := range b.Vals[1:] {
-					s, _ := unhx(v)
-					as = append(as, s)
-				}
-				target.Aliases = as
-			case "ns":
-				s, _ := unhx(b.Vals[0])
-				target.Namespace = s
-			case "shortdesc":
-				s, _ := unhx(b.Vals[0])
-				target.ShortDescription = s
-			case "longdesc":
-				s, _ := unhx(b.Vals[0])
-				target.LongDescription = s
-			}
-		case "setgrp":
-			g := allGroups(target)[b.Gi]
-			s, _ := unhx(b.Vals[0])
-			switch b.Attr {
-			case "ns":
-				g.Namespace = s
-			case "envns":
-				g.EnvNamespace = s
-			case "hidden":
-				g.Hidden = b.Vals[0] == "1"
-			}
-		}
+		outs = append(outs, r.applyBuild(&c.Build[i])...)
 	}
 	r.register()
 	return r, outs
+}
+
+// applyBuild performs one declaration step on the real parser; returns its "R …" lines.
+func (r *Real) applyBuild(b *BuildOp) []string {
+	var outs []string
+	target := r.byUid[b.Target]
+	switch b.Kind {
+	case "addgroup":
+		data := r.makeStruct(b.Struct)
+		_, err := target.AddGroup(b.Short, b.Long, data.Interface())
+		outs = append(outs, "R "+errLine(err, false))
+		r.dead = err != nil
+		r.number()
+	case "addcommand":
+		var data interface{}
+		var ec *execCmd
+		if b.Commander != 0 {
+			ec = &execCmd{kind: b.Commander, name: b.Name, log: r.log}
+			if b.Usage != nil {
+				data = &execUsageCmd{execCmd: *ec, usage: *b.Usage}
+				ec = &data.(*execUsageCmd).execCmd
+			} else {
+				data = ec
+			}
+		} else {
+			data = r.makeStruct(b.Struct).Interface()
+		}
+		cmd, err := target.AddCommand(b.Name, b.Short, b.Long, data)
+		outs = append(outs, "R "+errLine(err, false))
+		r.dead = err != nil
+		r.number()
+		if err == nil && ec != nil {
+			ec.uid = r.uids[cmd]
+			r.execs = append(r.execs, ec)
+		}
+	case "setcmd":
+		switch b.Attr {
+		case "hidden":
+			target.Hidden = b.Vals[0] == "1"
+		case "subopt":
+			target.SubcommandsOptional = b.Vals[0] == "1"
+		case "aliases":
+			var as []string
+			for _, v := range b.Vals[1:] {
+				s, _ := unhx(v)
+				as = append(as, s)
+			}
+			target.Aliases = as
+		case "ns":
+			s, _ := unhx(b.Vals[0])
+			target.Namespace = s
+		case "shortdesc":
+			s, _ := unhx(b.Vals[0])
+			target.ShortDescription = s
+		case "longdesc":
+			s, _ := unhx(b.Vals[0])
+			target.LongDescription = s
+		}
+	case "setgrp":
+		g := allGroups(target)[b.Gi]
+		s, _ := unhx(b.Vals[0])
+		switch b.Attr {
+		case "ns":
+			g.Namespace = s
+		case "envns":
+			g.EnvNamespace = s
+		case "hidden":
+			g.Hidden = b.Vals[0] == "1"
+		}
+	}
+	return outs
 }
 
 // allGroups: eachGroup order of a command.
@@ -680,7 +699,13 @@ func (r *Real) RunOps() []string {
 		}
 	}()
 	for _, op := range r.c.Ops {
+		if r.dead {
+			break
+		}
 		switch op.Kind {
+		case "build":
+			out = append(out, r.applyBuild(op.B)...)
+			r.register()
 		case "parse":
 			r.log.lines = nil
 			var ret []string
